@@ -166,6 +166,9 @@ func newHWorld(o hopts) (*hworld, error) {
 		"Uploads/.info_part.bin": string(infoFork("BINA", "????", "part.bin", "partial")), "Uploads/.rsrc_part.bin.incomplete": "partial rsrc",
 		"UpDir/x.bin.incomplete": "stale", "Uploads/UpDir/x.bin.incomplete": "stale", "Drop Box/UpDir/x.bin.incomplete": "stale",
 		"Folder/UpDir/x.bin.incomplete": "stale",
+		// stored comments on the ordinary file and folder (something to lose for a set-comment request)
+		".info_file.txt": string(infoFork("TEXT", "ttxt", "file.txt", "a stored comment")),
+		".info_Folder":   string(infoFork("fldr", "n/a ", "Folder", "a stored folder comment")),
 		"occupied.txt": "occupant", "Dest/occupied.txt": "occupant at the destination", ".info_occupied.txt": string(infoFork("TEXT", "ttxt", "occupied.txt", "keep me")),
 	} {
 		if err := os.MkdirAll(filepath.Dir(filepath.Join(w.Root, p)), 0755); err != nil {
@@ -525,6 +528,13 @@ func applyVariant(t int, v string, f []sim.F) ([]sim.F, error) {
 			return setField(f, sim.FOptions, []byte{0, 3}), nil
 		case "opt1w":
 			return setField(f, sim.FOptions, []byte{0, 0, 0, 1}), nil
+		}
+	case 207:
+		switch v {
+		case "empty":
+			return setField(f, sim.FFileComment, []byte{}), nil
+		case "one":
+			return setField(f, sim.FFileComment, []byte("x")), nil
 		}
 	case 202:
 		if v == "preview" {
